@@ -306,10 +306,14 @@ def mutateFrame0 (m : Made) : G (Frame × String × Bool) := do
   let nsub := f.subs.length
   let i ← below (max nsub 1)
   let depth := subBps f.hdr.assign f.hdr.bps i
-  let kind ← below 22
+  let kind ← below 24
   let setHdr (h : Header) : Frame := { f with hdr := h }
   let setSub (g : Subframe → Subframe) : Frame := { f with subs := mapNth f.subs i g }
   match kind with
+  | 22 => pure (setHdr { f.hdr with bsCode := 7, blockSize := 65536 }, "block-size-field-ffff", false)
+  | 23 => do
+      let big ← chance 1 2
+      pure (setHdr { f.hdr with bsCode := 6, blockSize := if big then 256 else 1 }, "block-size-8bit-extreme", false)
   | 0 => pure (setHdr { f.hdr with bsCode := 0 }, "block-size-code-0000", true)
   | 1 => pure (setHdr { f.hdr with rateCode := 15 }, "sample-rate-code-1111", true)
   | 2 => pure (setHdr { f.hdr with bpsCode := 3 }, "sample-size-code-011", true)
